@@ -5,7 +5,7 @@ HERE = os.path.dirname(os.path.abspath(__file__))
 VERIF = os.path.dirname(HERE)
 sys.path.insert(0, HERE)
 import gen, runner
-from check import failure_props
+from check import failure_props, body_similarity, load_base_tokens
 
 
 def verdict(repo):
@@ -17,14 +17,19 @@ def verdict(repo):
     p = gen.write_outputs(res, os.path.join(VERIF, 'build'), name='gen_selftest')
     run = runner.run_verus(p, res, rlimit=30)
     props, obs = set(), []
+    base_toks = load_base_tokens()
+    reimpl = []
     for f in run.failures:
+        if f.addr in base_toks and body_similarity(g, res, f.addr, base_toks) < 0.5:
+            reimpl.append('%s fails in re-implemented %s' % (f.oid, f.addr)); continue
         t = failure_props(f, res)
         props |= t
         obs.append(f.oid)
     for x in getattr(res, 'syntactic', []):
         if not x['ok']:
             props |= set(x['tags']); obs.append(x['oid'])
-    return dict(tool='; '.join(run.tool_errors)[:300] if run.tool_errors else '', props=props, obs=sorted(set(obs)))
+    tool = '; '.join(run.tool_errors + reimpl)[:300] if (run.tool_errors or reimpl) else ''
+    return dict(tool=tool, props=props, obs=sorted(set(obs)))
 
 
 def main():
